@@ -14,6 +14,7 @@ import (
 	"fmt"
 	"math"
 	"os"
+	"path/filepath"
 	"regexp"
 	"runtime"
 	"runtime/debug"
@@ -701,6 +702,21 @@ type c02wEnd struct {
 // the shard, so that layouts with several files are reached by short histories) or a reorganisation.
 func c02wIsWrite(letter string) bool { return c02wWriteIndex(strings.TrimSuffix(letter, "!")) >= 0 }
 
+var c02wDirSeq int
+
+// c02wListFiles lists the files below the shard's data directory (name:size), for the detail of a violation.
+func c02wListFiles(dir string) string {
+	var out []string
+	_ = filepath.Walk(filepath.Join(dir, "data"), func(p string, info os.FileInfo, err error) error {
+		if err == nil && !info.IsDir() {
+			rel, _ := filepath.Rel(dir, p)
+			out = append(out, fmt.Sprintf("%s:%d", rel, info.Size()))
+		}
+		return nil
+	})
+	return strings.Join(out, " ")
+}
+
 type c02wStep struct {
 	op     string
 	letter int  // index of the letter this step belongs to
@@ -723,16 +739,25 @@ func c02wSteps(letters []string) []c02wStep {
 // their last step; every other step (compared in full when that prefix was explored as a history of its own, or the
 // write half of a "write then flush" letter) gets one unbounded read of all fields, which also pins the survivor
 // of same-batch duplicates the way the first read of that prefix did.
-func c02wRunHistory(rep *kit.Report, dir string, c c02wCase, fullFrom int, stats bool) (end c02wEnd) {
+func c02wRunHistory(rep *kit.Report, parent string, c c02wCase, fullFrom int, stats bool) (end c02wEnd) {
+	// a directory of its own for every execution: the process keeps caches keyed by file path (chunk metas, pages);
+	// data file names restart from 00000001 in every fresh shard, and a path seen in an earlier history must not be
+	// seen again (in a deployed store a data file name is never reused)
+	c02wDirSeq++
+	dir := filepath.Join(parent, fmt.Sprintf("h%07d", c02wDirSeq))
 	_ = os.RemoveAll(dir)
 	c.Knobs.apply()
 	c02wInstallTap()
+	lastNames := ""
 	splitPath := false // the step under way is a streaming compaction that has to split a chunk (see c02wLayout.SeriesSegs)
 	fail := func(n int, kind, detail string) c02wEnd {
 		cc := c02wCase{Wide: true, Knobs: c.Knobs, Ops: append([]string(nil), c.Ops[:n]...)}
 		if splitPath && strings.HasPrefix(kind, "wide_") {
 			// one defect family with its own kinds: the split-chunk path of StreamIterators.compactColumn
 			kind = "wide_split_chunk_" + strings.TrimPrefix(kind, "wide_")
+		}
+		if strings.HasPrefix(kind, "wide_") {
+			detail += " [data files: " + c02wListFiles(dir) + "; before the step: " + lastNames + "]"
 		}
 		end.vio = &c02wViolation{kind, c.key(n), detail, cc}
 		return end
@@ -757,6 +782,7 @@ func c02wRunHistory(rep *kit.Report, dir string, c c02wCase, fullFrom int, stats
 		i, op := st.letter, st.op
 		ce0, me0 := c02wErrCounters()
 		c02wTap.take()
+		lastNames = prev.Names
 		splitPath = (op == "LC" || op == "FC") && c.Knobs.Stream == 1 && c.Knobs.SegLimit > 0 && prev.SeriesSegs > c.Knobs.SegLimit
 		if err := c02wApply(v, m, op, i+1); err != nil {
 			return fail(i+1, "wide_op_error", fmt.Sprintf("op %s failed: %v", op, err))
@@ -1121,9 +1147,21 @@ func c02WideReplay(rep *kit.Report, scratch string, c c02wCase) {
 		}
 		return
 	}
-	e := c02wRunHistory(rep, vMkdir(scratch, "wreplay"), c, 0, true)
-	if e.vio != nil {
-		rep.Violation(e.vio.kind, e.vio.key, e.vio.detail, e.vio.replay)
+	n := 1
+	fmt.Sscanf(kit.Getenv("VERIF_C02_REPEAT", "1"), "%d", &n) // development aid: run the case n times in this process
+	failed := 0
+	for k := 0; k < n; k++ {
+		e := c02wRunHistory(rep, vMkdir(scratch, "wreplay"), c, 0, k == 0)
+		if e.vio != nil {
+			failed++
+			if failed == 1 {
+				rep.Violation(e.vio.kind, e.vio.key, e.vio.detail, e.vio.replay)
+			}
+		}
+	}
+	if n > 1 {
+		rep.Note("replayed %d times in one process: %d failing runs", n, failed)
+		fmt.Fprintf(os.Stderr, "C02W-REPEAT %d runs, %d failing\n", n, failed)
 	}
 }
 
@@ -1150,7 +1188,8 @@ func c02WideVolume(scratch, which string) *c02wViolation {
 	fail := func(kind, detail string) *c02wViolation {
 		return &c02wViolation{"wide_split_chunk_" + kind, c02wVolumeKey(which), detail, cc}
 	}
-	dir := vMkdir(scratch, "volume")
+	c02wDirSeq++
+	dir := vMkdir(scratch, fmt.Sprintf("volume%07d", c02wDirSeq))
 	defer os.RemoveAll(dir)
 	v, err := vOpenShard(dir)
 	if err != nil {
@@ -1284,7 +1323,7 @@ func c02WideVolume(scratch, which string) *c02wViolation {
 		return fail("lost_data", fmt.Sprintf("after FC: %d rows written, %d read, %d with a wrong value or out of order, err=%v (before: %s; after: %d ordered files, at most %d segments in a chunk)",
 			total, r1, b1, err, before, l1.NOrder, l1.MaxSegs))
 	}
-	if l1.NOrder >= l0.NOrder && l1.MaxSegs == l0.MaxSegs {
+	if l1.Names == l0.Names {
 		return &c02wViolation{"harness_volume_case_not_compacted", c02wVolumeKey(which), "the full compaction did not change the layout: " + before, cc}
 	}
 	return nil
